@@ -205,6 +205,30 @@ CHECKS = {
         technique="static analysis: dominance/order rule, loop-shape and formula-shape matching, list-to-field role table, guard facts"),
 }
 
+# clauses added by later seed waves (kept apart so the base texts above stay readable)
+ADDENDA = {
+    "C16": "Name-record keys follow the (nameID, platform, encoding, language) tuple of the UFO record; InfoCompiler._set_attrs copies every listed "
+           "attribute; every bit-list attribute is converted over the whole range of bits the UFO specification allows.",
+    "C05": "Kerning class names pass through unchanged; a glyph's scripts are folded into Common exactly under `scripts & DFLT_SCRIPTS` (Zyyy, Zinh).",
+    "C03": "Production-name renaming leaves order and cmap alone (shared with C11).",
+    "C01": "Only the listed builders write advances (who-may-write table); only missing glyphs are generated.",
+    "C12": "defaultWidthX / nominalWidthX are made integers by their one producer and used unchanged by both consumers (private dict and charstrings).",
+    "C17": "User GDEF definitions (classes and caret statements, read from fontTools.feaLib.ast) are kept; generated blocks are appended at the top level; "
+           "the include directory of the source is forwarded.",
+    "C11": "Post-processing is applied per font, on that font's own glyph-name map.",
+    "C18": "Every glyph of the set is a cursive candidate; anchors are read by their slot (entry / exit).",
+    "C14": "The include / exclude predicates of BaseFilter are installed under `is not None` facts (an empty include list selects nothing; "
+           "callable(x) implies x given; an empty exclude list equals the default).",
+    "C15": "The reverseFlipped flag forwarded to the decomposing pen is the untouched parameter; component recursion in anchor propagation is unconditional; "
+           "base / mark components partition the components.",
+    "C20": "Generated feature blocks are appended at the top level of the feature file; languages are filed per script tag.",
+    "C09": "Per-master accumulators are never shared between masters (shared with C02 / C15).",
+    "C02": "Decomposition of mixed / transformed composites precedes curve conversion; the generated .notdef follows the outline type's contour direction.",
+    "C13": "The designspace's skip list has the last word in the lib of a generated instance; the union runs over every UFO.",
+}
+for _k, _v in ADDENDA.items():
+    CHECKS[_k]["text"] += " " + _v
+
 _TODO = "check not built yet in this session (static rules designed in DESIGN.md §5; will be claimed when the rule set is armed)"
 NOT_APPLICABLE = {}
 for _p in ["C01", "C02", "C04", "C05", "C06", "C07", "C08", "C09", "C10", "C11", "C12", "C13", "C14", "C15", "C16", "C17", "C18", "C19", "C20"]:
